@@ -4,20 +4,20 @@ import json, subprocess
 
 CLAIMS = {
  "C19": dict(
-  text="Static, exhaustive enumeration of the three plugin registries (static data) in all three GOOS configurations: every registry row resolves to a plugin whose Name() is the row key, names are unique, groups never shadow plugins and list only registered constructors, the capability filter is exactly plugin.ValidateRequirements on the element being admitted, ValidatePluginRequirements covers all three plugin kinds, every detector-required extractor resolves and has requirements implied by the detector's, ValidateRequirements consults all four capability fields and never orders the unordered OS/Network enums. Also: the filters' converse (no other decision drops an element, no return before the loop) and EnableRequiredExtractors updating its enabled-name set with the very name it looked up. Level 'other': necessary structural conditions decided for every row; the truth table of ValidateRequirements is not evaluated.",
+  text="Static, exhaustive enumeration of the three plugin registries (static data) in all three GOOS configurations: every registry row resolves to a plugin whose Name() is the row key, names are unique, groups never shadow plugins and list only registered constructors, the capability filter is exactly plugin.ValidateRequirements on the element being admitted, ValidatePluginRequirements covers all three plugin kinds, every detector-required extractor resolves and has requirements implied by the detector's, ValidateRequirements consults all four capability fields and never orders the unordered OS/Network enums. Also: the filters' converse (no other decision drops an element, no return before the loop) and EnableRequiredExtractors updating its enabled-name set with the very name it looked up. Round 3: D5-decision-table: ValidateRequirements, as a boolean function of its tests, equals the documented requirement semantics (this checks the model D4 relies on); the filter's result is a fresh slice; every name resolution reads the names table. Level 'other': necessary structural conditions decided for every row; the truth table of ValidateRequirements is not evaluated.",
   note="Trusted: go/types+go/ssa; the symbolic reading of concat/vals (their bodies are checked to be maps.Copy union / slices.Concat(maps.Values)); literal Name()/Requirements()/RequiredExtractors() bodies (non-literal => undecided => failure); the OS/Network implication lattice used for D4 is a model of ValidateRequirements.",
   technique="table evaluation over AST+types, SSA constant evaluation, edge-dominance guard check",
   ref="DESIGN.md §3 C19"),
 }
 
 CLAIMS["C01"] = dict(
-  text="All-paths structural rules over the scan engine (edge dominance / must-pass-through on SSA): Extract is reached from one dispatch site only, under FileRequired==true of the same extractor and with the lazy file API reset for the current path; one dispatch per (file, extractor) with the loop covering all extractors; directories and non-symlink special files never reach the dispatch; the directory-skip predicate consults all five skip rules, each match leads to skip, the skip list is an exact lookup, SkipDir is returned iff the predicate holds; gitignored files are never dispatched; non-empty results are always attributed and appended; the recursive walker visits every successfully read entry and never originates SkipDir; explicit-path walks reuse the same callbacks and install parent gitignore patterns. Level 'other': necessary conditions for every tree/configuration; matching semantics of glob/regex/gitignore and inventory equality are not decided.",
+  text="All-paths structural rules over the scan engine (edge dominance / must-pass-through on SSA): Extract is reached from one dispatch site only, under FileRequired==true of the same extractor and with the lazy file API reset for the current path; one dispatch per (file, extractor) with the loop covering all extractors; directories and non-symlink special files never reach the dispatch; the directory-skip predicate consults all five skip rules, each match leads to skip, the skip list is an exact lookup, SkipDir is returned iff the predicate holds; gitignored files are never dispatched; non-empty results are always attributed and appended; the recursive walker visits every successfully read entry and never originates SkipDir; explicit-path walks reuse the same callbacks and install parent gitignore patterns. Round 3: the skip predicate, as a boolean function of its tests, equals the disjunction of the five configured skip rules (decision table); the decisions and early exits that keep the current file from an extractor are the audited ones; the size-limit rule of C10 is shared. Level 'other': necessary conditions for every tree/configuration; matching semantics of glob/regex/gitignore and inventory equality are not decided.",
   note="Trusted: go/ssa CFGs; anchors resolved by role (callbacks passed to WalkDirUnsorted, the function containing the Extract invoke), unresolved anchors fail; value-level behaviour (pattern matching, prefix stripping) is out of scope.",
   technique="edge dominance + must-pass-through path search on SSA, same-value provenance",
   ref="DESIGN.md §3 C01")
 
 CLAIMS["C09"] = dict(
-  text="All-paths rules over the walk callback, the recursive walker, the dispatch function, StatusFromErr and Scan: errors derived from file-system operations abort the walk only under errorOnFSErrors and do abort it then; listing/stat failures are reported to the callback with the error and the walker never originates SkipDir; the DirEntry is only touched when fserr==nil; failed Open/Stat/Extract are recorded under the running extractor's name on every path; statuses are built per configured extractor from maps keyed by its name, failed vs partially-succeeded follows 'partial'; the lazy stat cache cannot keep a stale error; Run errors always reach the overall status; the gitignore pop is guarded. Also: D1 additionally: once fserr != nil a return that does not carry it is reachable only through the errorOnFSErrors == false edge. Level 'other': necessary conditions for every fault sequence; which files are extracted under a fault is not decided.",
+  text="All-paths rules over the walk callback, the recursive walker, the dispatch function, StatusFromErr and Scan: errors derived from file-system operations abort the walk only under errorOnFSErrors and do abort it then; listing/stat failures are reported to the callback with the error and the walker never originates SkipDir; the DirEntry is only touched when fserr==nil; failed Open/Stat/Extract are recorded under the running extractor's name on every path; statuses are built per configured extractor from maps keyed by its name, failed vs partially-succeeded follows 'partial'; the lazy stat cache cannot keep a stale error; Run errors always reach the overall status; the gitignore pop is guarded. Also: D1 additionally: once fserr != nil a return that does not carry it is reachable only through the errorOnFSErrors == false edge. Round 3: the decisions and early exits of the callback's loop over the extractors are the audited ones (an Open failure for one extractor does not keep the file from the others). Level 'other': necessary conditions for every fault sequence; which files are extracted under a fault is not decided.",
   note="Trusted: go/ssa CFG and def-use; error provenance follows fmt.Errorf/errors.Join arguments, phis and locals only.",
   technique="error-provenance dataflow + edge dominance + must-pass-through on SSA",
   ref="DESIGN.md §3 C09")
@@ -28,18 +28,18 @@ CLAIMS["C10"] = dict(
   ref="DESIGN.md §3 C10")
 
 CLAIMS["C08"] = dict(
-  text="All-paths rules: every Scan return goes through newScanResult, which sorts statuses, packages, findings and each package's locations unconditionally with the right comparators; the comparators compare the same key of both operands (operand-mirror rule) and cover the documented keys; the walk context's per-root result fields are re-initialised with fresh values before every root's walk and Run appends exactly that root's inventory once; Inventory.Append carries packages and findings; the gitignore pattern stack is balanced over every directory (a directory returning nil or SkipDir has pushed exactly once, the pop removes one under the same conditions). Also: D3 additionally: no decision in Run skips a scan root, and the per-extractor found-inventory flag is only ever set to true. Level 'other': necessary conditions for order- and root-count-independence; equality of multisets over permutations is not decided.",
+  text="All-paths rules: every Scan return goes through newScanResult, which sorts statuses, packages, findings and each package's locations unconditionally with the right comparators; the comparators compare the same key of both operands (operand-mirror rule) and cover the documented keys; the walk context's per-root result fields are re-initialised with fresh values before every root's walk and Run appends exactly that root's inventory once; Inventory.Append carries packages and findings; the gitignore pattern stack is balanced over every directory (a directory returning nil or SkipDir has pushed exactly once, the pop removes one under the same conditions). Also: D3 additionally: no decision in Run skips a scan root, and the per-extractor found-inventory flag is only ever set to true. Round 3: the shared lazy file API is reset unconditionally for every file (also across roots); comparators never compare pointer identity. Level 'other': necessary conditions for order- and root-count-independence; equality of multisets over permutations is not decided.",
   note="Trusted: go/ssa; access-path rendering of pure operands; slices.SortFunc/sort.Strings contracts.",
   technique="must-pass-through, operand-mirror (access path) comparison, reset-on-all-paths, push/pop pairing on SSA",
   ref="DESIGN.md §3 C08")
 CLAIMS["C20"] = dict(
-  text="All-paths rules: Scan builds the package index from the result inventory's packages after both the file-system and the standalone packages are in it and hands that index to detector.Run; Run scans each detector once, tags every finding with exactly that detector's name, appends all findings and a status built from that call's error in every iteration; findings are returned only after validateAdvisories passed (nil advisory, nil ID, unequal advisories under an equal ID value all fail; the ID map is keyed by value); the index stores each package under the type and name of its own package URL and GetSpecific looks up in the same order. Level 'other': structural necessary conditions for every inventory/detector set.",
+  text="All-paths rules: Scan builds the package index from the result inventory's packages after both the file-system and the standalone packages are in it and hands that index to detector.Run; Run scans each detector once, tags every finding with exactly that detector's name, appends all findings and a status built from that call's error in every iteration; findings are returned only after validateAdvisories passed (nil advisory, nil ID, unequal advisories under an equal ID value all fail; the ID map is keyed by value); the index stores each package under the type and name of its own package URL and GetSpecific looks up in the same order. Round 3: the decisions that keep a package out of the index are the audited ones (frozen table). Level 'other': structural necessary conditions for every inventory/detector set.",
   note="Trusted: go/ssa; reflect.DeepEqual semantics; same-value provenance through phis and locals.",
   technique="must-pass-through + same-value provenance + type check of the advisory map key",
   ref="DESIGN.md §3 C20")
 
 CLAIMS["C07"] = dict(
-  text="Panic-freedom discipline and comparator shape over all of package semantic: every index/slice expression is proved in bounds by a difference-constraint prover (facts from dominating branches, strings/regexp/builtin API contracts, loop counters, call-site facts of unexported helpers) or is an audited site with a stated data invariant (with machine-checked witnesses where the invariant rests on a particular guard); nil-on-failure results are never used with their ok/err discarded; Parse and each version type's CompareStr use the same parse function and forward its error; comparators compare the same key of both operands and return negated constants in mirrored branches. Also: D5 numeric components are never parsed with fixed-width strconv parsing (every numeric test goes through big.Int). Level 'other': necessary conditions for 'never panics' and antisymmetry; transitivity and agreement with published orderings are value-level and not decided.",
+  text="Panic-freedom discipline and comparator shape over all of package semantic: every index/slice expression is proved in bounds by a difference-constraint prover (facts from dominating branches, strings/regexp/builtin API contracts, loop counters, call-site facts of unexported helpers) or is an audited site with a stated data invariant (with machine-checked witnesses where the invariant rests on a particular guard); nil-on-failure results are never used with their ok/err discarded; Parse and each version type's CompareStr use the same parse function and forward its error; comparators compare the same key of both operands and return negated constants in mirrored branches. Also: D5 numeric components are never parsed with fixed-width strconv parsing (every numeric test goes through big.Int). Round 3: D6 a test made on one operand of a comparator is also made on the other; no multi-character or computed cutset trimming. Level 'other': necessary conditions for 'never panics' and antisymmetry; transitivity and agreement with published orderings are value-level and not decided.",
   note="Trusted: go/ssa, the API contract table (strings.Split>=1, Index bounds, regexp sub-match counts from the constant patterns via regexp/syntax), audited sites (14 index/slice + 1 SetString) read by hand; loads of the same field path are assumed stable between a dominating test and its use.",
   technique="difference-constraint bounds prover on SSA + audited table, parse/compare agreement table, operand-mirror and mirrored-branch rules",
   ref="DESIGN.md §3 C07")
@@ -51,47 +51,47 @@ CLAIMS["C02"] = dict(
   ref="DESIGN.md §3 C02")
 
 CLAIMS["C14"] = dict(
-  text="Table agreement and converter coverage: every purl type the code can emit or declares is accepted by the library's own validType; for each of the registered extractors the single-value assertions of ToPURL/Ecosystem on Package.Metadata are matched by every Package its Extract code allocates; every allocated Package gets a non-empty Locations (3 genuine exceptions recorded as known findings: dotnetpe x2, chrome/extensions); the proto converters read every source field and fill each like-named field, the SBOM converters write ToPURL(pkg).String() of the package being converted and ToCDX copies name, version and all locations; the index is keyed by the URL's own type/name; bounds discipline over purl, packageindex, converter, binary/proto. Level 'other': necessary conditions; non-empty names, percent-encoding round trips and third-party SBOM library behaviour are not decided.",
+  text="Table agreement and converter coverage: every purl type the code can emit or declares is accepted by the library's own validType; for each of the registered extractors the single-value assertions of ToPURL/Ecosystem on Package.Metadata are matched by every Package its Extract code allocates; every allocated Package gets a non-empty Locations (3 genuine exceptions recorded as known findings: dotnetpe x2, chrome/extensions); the proto converters read every source field and fill each like-named field, the SBOM converters write ToPURL(pkg).String() of the package being converted and ToCDX copies name, version and all locations; the index is keyed by the URL's own type/name; bounds discipline over purl, packageindex, converter, binary/proto. Round 3: D7 the formats' audited omissions (empty name/version) are shared from C03. Level 'other': necessary conditions; non-empty names, percent-encoding round trips and third-party SBOM library behaviour are not decided.",
   note="Trusted: go/ssa, CHA reachability from Extract methods, constant evaluation of stored types (with the one path refinement documented in DESIGN.md), generated *.pb.go excluded.",
   technique="table agreement (constants vs. map literal), writer/reader type agreement over allocations, field-coverage analysis of converters",
   ref="DESIGN.md §3 C14")
 
 CLAIMS["C15"] = dict(
-  text="Structural necessary conditions of the export->import round trip, decided from source for all inputs: every purl type the library emits or declares is accepted by purl.validType (called by both importers through purl.FromString); every output format the CLI accepts reaches a writer that has a row/case for it, each SPDX writer row calls Write of exactly one tools-golang format package and the importer's extension table reads the same package, the CycloneDX writer's file formats are decoded by importer rows whose names announce that syntax; the SPDX exporter's external-reference type is one of the constants the importer's purl branch compares against and the importers parse exactly the locator / PackageURL field of the entry they look at, store the parsed URL and hand it back unchanged from ToPURL; the decisions that leave a package out of an export or an entry out of an import are exactly the audited ones (rendered by the definition of the tested value); every Supplier/Originator literal is expressible in tag-value (2 genuine exceptions recorded as known findings: spdx23-tag-value exports are rejected by the importer). Level 'other': the serialisers/parsers are third-party code that is not analysed, so byte-level escaping, multiset equality and duplicates are not decided.",
+  text="Structural necessary conditions of the export->import round trip, decided from source for all inputs: every purl type the library emits or declares is accepted by purl.validType (called by both importers through purl.FromString); every output format the CLI accepts reaches a writer that has a row/case for it, each SPDX writer row calls Write of exactly one tools-golang format package and the importer's extension table reads the same package, the CycloneDX writer's file formats are decoded by importer rows whose names announce that syntax; the SPDX exporter's external-reference type is one of the constants the importer's purl branch compares against and the importers parse exactly the locator / PackageURL field of the entry they look at, store the parsed URL and hand it back unchanged from ToPURL; the decisions that leave a package out of an export or an entry out of an import are exactly the audited ones (rendered by the definition of the tested value); every Supplier/Originator literal is expressible in tag-value (2 genuine exceptions recorded as known findings: spdx23-tag-value exports are rejected by the importer). Round 3: the SBOM writers open their output with truncation. Level 'other': the serialisers/parsers are third-party code that is not analysed, so byte-level escaping, multiset equality and duplicates are not decided.",
   note="Trusted: go/ssa, evaluation of package-level map literals (single initialising store, no other writer), tools-golang v0.5.3 supplier grammar read from its tag-value reader, cyclonedx-go decodes what it encodes per BOMFileFormat.",
   technique="table agreement (writer rows vs importer rows vs CLI list), constant/field provenance of reference strings, frozen omission-decision table, literal-shape rule against the reader grammar",
   ref="DESIGN.md §3 C15")
 
 CLAIMS["C11"] = dict(
-  text="Shape of the three candidate scans, decided from source for all inputs: every version that can become the chosen one (override: flows into Manifest.PatchRequirement; relax: into the requirement NpmRelaxer.Relax returns; update: into the requirement suggestMavenVersion returns) is committed only on paths that, since that candidate was defined, crossed the true edge of Level.Allows(L, D) with D the semver Difference between the base and that same candidate; L is Config.Get(options' UpgradeConfig, Name of the package whose base version D was measured from); the base is the loop's vulnerable version key and candidates are elements of getVersionsGreater(that key) (one comparator for sort and search) in override, the MatchVersion-witnessed index of a downward scan over the comparator-sorted list (or an already level-checked step) in relax, the parsed requirement or a MatchVersion-witnessed version in update where candidates below the base are skipped; level None is skipped before any candidate; relax.patchVulns and MavenSuggester.Suggest patch/report exactly the level-checked result with the configured UpgradeConfig. Also: D5 progress — from the start of a round of the override / relax fix-point loop the next round is reachable only through Manifest.PatchRequirement. Level 'other': these are necessary conditions; ecosystem order properties, what a requirement resolves to in a universe, re-resolution effects and termination of the fixpoint loops are not decided.",
+  text="Shape of the three candidate scans, decided from source for all inputs: every version that can become the chosen one (override: flows into Manifest.PatchRequirement; relax: into the requirement NpmRelaxer.Relax returns; update: into the requirement suggestMavenVersion returns) is committed only on paths that, since that candidate was defined, crossed the true edge of Level.Allows(L, D) with D the semver Difference between the base and that same candidate; L is Config.Get(options' UpgradeConfig, Name of the package whose base version D was measured from); the base is the loop's vulnerable version key and candidates are elements of getVersionsGreater(that key) (one comparator for sort and search) in override, the MatchVersion-witnessed index of a downward scan over the comparator-sorted list (or an already level-checked step) in relax, the parsed requirement or a MatchVersion-witnessed version in update where candidates below the base are skipped; level None is skipped before any candidate; relax.patchVulns and MavenSuggester.Suggest patch/report exactly the level-checked result with the configured UpgradeConfig. Also: D5 progress — from the start of a round of the override / relax fix-point loop the next round is reachable only through Manifest.PatchRequirement. Round 3: D6 Level.Allows, as a boolean function of its tests, equals the level semantics (decision table). Level 'other': these are necessary conditions; ecosystem order properties, what a requirement resolves to in a universe, re-resolution effects and termination of the fixpoint loops are not decided.",
   note="Trusted: go/ssa, deps.dev/util/semver Difference/Compare semantics, slices.SortFunc/BinarySearchFunc contracts.",
   technique="edge-dominance of Level.Allows over every phi edge that commits a candidate (per-candidate, since its definition) + value/cell provenance of base, candidate, level and configuration",
   ref="DESIGN.md §3 C11")
 
 CLAIMS["C12"] = dict(
-  text="Plumbing between analysis, report and written manifest, decided from source for all inputs: ConstructPatches diffs the filtered Vulns lists of the original and the patched result and computeVulnsResult reports that same list (no UnfilteredVulns mixed in); every slices.CompactFunc over a slice sorted in the same function merges exactly the elements the sort comparator calls equal, and the update comparator compares Name, VersionFrom, VersionTo and Type mirrored; reported PackageUpdates take Name/VersionTo from the patched requirement and VersionFrom from the original requirement with the same requirement key, and a requirement / patch / fixed-vulnerability is left out only under the audited decisions (frozen table: unchanged version, incompatible patches, no-introduce, failed or empty strategy result); choosePatches returns unmodified elements of allPatches; doStrategy and Update hand writeManifestPatches the very patch list they return in Result.Patches, the manifest parsed from the same path, and return its error, and writeManifestPatches passes all of it to the ReadWriter; Unactionable is 'ID absent from the Fixed IDs of all computed patches', computed from the same patch list the applied patches are chosen from; the package.json writer applies every update or fails and changes nothing else (shared with C13). Also: D1 additionally: every vulnerability filter is MatchVuln(*opts, v) on the caller's options object and the explicit-list expansion is stored into that object; the pom.xml writer marks a section as handled under the origin whose patches it applied (C13 D6). Level 'other': necessary conditions; that re-resolving the written manifest yields the reported sets (resolver, matcher, PatchRequirement alias semantics) and the pom.xml writer's application of updates are not decided.",
+  text="Plumbing between analysis, report and written manifest, decided from source for all inputs: ConstructPatches diffs the filtered Vulns lists of the original and the patched result and computeVulnsResult reports that same list (no UnfilteredVulns mixed in); every slices.CompactFunc over a slice sorted in the same function merges exactly the elements the sort comparator calls equal, and the update comparator compares Name, VersionFrom, VersionTo and Type mirrored; reported PackageUpdates take Name/VersionTo from the patched requirement and VersionFrom from the original requirement with the same requirement key, and a requirement / patch / fixed-vulnerability is left out only under the audited decisions (frozen table: unchanged version, incompatible patches, no-introduce, failed or empty strategy result); choosePatches returns unmodified elements of allPatches; doStrategy and Update hand writeManifestPatches the very patch list they return in Result.Patches, the manifest parsed from the same path, and return its error, and writeManifestPatches passes all of it to the ReadWriter; Unactionable is 'ID absent from the Fixed IDs of all computed patches', computed from the same patch list the applied patches are chosen from; the package.json writer applies every update or fails and changes nothing else (shared with C13). Also: D1 additionally: every vulnerability filter is MatchVuln(*opts, v) on the caller's options object and the explicit-list expansion is stored into that object; the pom.xml writer marks a section as handled under the origin whose patches it applied (C13 D6). Round 3: D7 MatchVuln equals the option semantics (decision table); D8 manifest Clone reads every field and iterates only over the receiver's data; D9/D10 pom.xml identity and parent-origin agreement (shared with C13). Level 'other': necessary conditions; that re-resolving the written manifest yields the reported sets (resolver, matcher, PatchRequirement alias semantics) and the pom.xml writer's application of updates are not decided.",
   note="Trusted: go/ssa; slices.SortFunc/CompactFunc contracts; the frozen omission table c12Sanctioned was confirmed by reading each row.",
   technique="field/value provenance between analysis, report and writer calls; comparator/equality agreement (same closure or same key set); frozen omission-decision table; path-sensitive applied-or-error rule of C13 reused",
   ref="DESIGN.md §3 C12")
 
 CLAIMS["C06"] = dict(
-  text="Effect analysis and containment rules: in all first-party code reachable from the 58 filesystem extractors and filesystem.Run the only file-system / process / database effects are the audited GetRealPath temp copy and its removal; bbolt databases are opened with ReadOnly; GetRealPath's temp directory is removed by every caller (filepath.Dir of the returned path) and on its own error exits; in unpack every MkdirAll/WriteFile/Symlink happens only after the lexical '..' rejection and a passed pathOutsideBaseDirectory(dir, fullPath) on that same path, and that check is filepath.Rel-based, rejects both '..' and '../', and treats errors as outside; layer scanning writes only Join(layer dir, cleaned name) after its '../' test, never creates links on disk, and cleans its temp directory on every error exit. Also: D7 symlink.TargetOutsideRoot answers on every path with the marker test on the joined, cleaned path of the target. Level 'other': who-may-mutate and dominance facts for all inputs; effects inside third-party code, symlink chains that become escaping through later entries, detectors and standalone extractors are not decided.",
+  text="Effect analysis and containment rules: in all first-party code reachable from the 58 filesystem extractors and filesystem.Run the only file-system / process / database effects are the audited GetRealPath temp copy and its removal; bbolt databases are opened with ReadOnly; GetRealPath's temp directory is removed by every caller (filepath.Dir of the returned path) and on its own error exits; in unpack every MkdirAll/WriteFile/Symlink happens only after the lexical '..' rejection and a passed pathOutsideBaseDirectory(dir, fullPath) on that same path, and that check is filepath.Rel-based, rejects both '..' and '../', and treats errors as outside; layer scanning writes only Join(layer dir, cleaned name) after its '../' test, never creates links on disk, and cleans its temp directory on every error exit. Also: D7 symlink.TargetOutsideRoot answers on every path with the marker test on the joined, cleaned path of the target. Round 3: D8 a link name is re-rooted under the target directory exactly when it is absolute (the reading TargetOutsideRoot assumes). Level 'other': who-may-mutate and dominance facts for all inputs; effects inside third-party code, symlink chains that become escaping through later entries, detectors and standalone extractors are not decided.",
   note="Trusted: CHA reachability over first-party code, the primitive table in c06.go, third-party open modes (go-rpmdb, saferwall/pe).",
   technique="effect (who-may-call) analysis over the call graph + edge dominance of containment checks + create/clean-up pairing",
   ref="DESIGN.md §3 C06")
 
 CLAIMS["C04"] = dict(
-  text="All-paths rules over the view construction: a node enters a chain layer's tree only if that tree has nothing at the path and the ancestor scan said 'not hidden'; layers are processed newest first into chainLayers[i:]; the ancestor scan answers 'hidden' for whited-out and for non-directory ancestors (IsDir), keeps climbing over missing ancestors and says 'not hidden' only at the root; whiteouts are never listed by ReadDir and fail Stat/Read/ReadAt/Seek with ErrNotExist before the file is touched; the requirer restriction only removes rejected nodes; a tar entry is dropped only for the sanctioned reasons (so whiteouts are never filtered by the requirer); nodes shared between views are immutable. Also: D7 chain-layer view trees are inserted into only by the guarded fill routine (and the root insert); D8 every tar entry passes populateEmptyDirectoryNodes before it is added to the views. Level 'other': necessary conditions of the overlay semantics for every layer sequence; opaque whiteouts (not implemented by the code), intra-layer entry order, content equality and equivalence with the squashed unpacking are not decided.",
+  text="All-paths rules over the view construction: a node enters a chain layer's tree only if that tree has nothing at the path and the ancestor scan said 'not hidden'; layers are processed newest first into chainLayers[i:]; the ancestor scan answers 'hidden' for whited-out and for non-directory ancestors (IsDir), keeps climbing over missing ancestors and says 'not hidden' only at the root; whiteouts are never listed by ReadDir and fail Stat/Read/ReadAt/Seek with ErrNotExist before the file is touched; the requirer restriction only removes rejected nodes; a tar entry is dropped only for the sanctioned reasons (so whiteouts are never filtered by the requirer); nodes shared between views are immutable. Also: D7 chain-layer view trees are inserted into only by the guarded fill routine (and the root insert); D8 every tar entry passes populateEmptyDirectoryNodes before it is added to the views. Round 3: an entry's handler runs only when the newest view has no node at its path; the requirer restriction prunes chainLayers[len-1]. Level 'other': necessary conditions of the overlay semantics for every layer sequence; opaque whiteouts (not implemented by the code), intra-layer entry order, content equality and equivalence with the squashed unpacking are not decided.",
   note="Trusted: go/ssa; pathtree Get/Insert/Remove contracts.",
   technique="edge dominance + must-pass-through + sanctioned-skip-edge enumeration on SSA",
   ref="DESIGN.md §3 C04")
 CLAIMS["C05"] = dict(
-  text="Structure of the attribution algorithm: the per-layer details list takes Index, DiffID and Command from the same chain layer and packages only ever get (a copy of) an element of that list; the extraction cache is keyed by (first location, view index) and written in one place; an iteration of the backward scan can return to the loop head without comparing packages only through the sanctioned 'file not in this layer' edge, otherwise it records the view as the latest scanned one after obtaining its packages; the origin is the latest scanned layer, or the first when no absence was found; the scan runs from len-2 down to 0; ScanContainer scans the last view and traces with the same chain layers. Also: D1 additionally: every iteration appends the record it just built for its own layer, and no iteration ends without appending. Level 'other': necessary structural conditions; validity of the skip for every history and empty-layer alignment are not decided.",
+  text="Structure of the attribution algorithm: the per-layer details list takes Index, DiffID and Command from the same chain layer and packages only ever get (a copy of) an element of that list; the extraction cache is keyed by (first location, view index) and written in one place; an iteration of the backward scan can return to the loop head without comparing packages only through the sanctioned 'file not in this layer' edge, otherwise it records the view as the latest scanned one after obtaining its packages; the origin is the latest scanned layer, or the first when no absence was found; the scan runs from len-2 down to 0; ScanContainer scans the last view and traces with the same chain layers. Also: D1 additionally: every iteration appends the record it just built for its own layer, and no iteration ends without appending. Round 3: D6 the search through an older view's packages stops only on an entry with equal package URL and locations. Level 'other': necessary structural conditions; validity of the skip for every history and empty-layer alignment are not decided.",
   note="Trusted: go/ssa loop/phi structure; the sanctioned skip is the filesExistInLayer false edge.",
   technique="loop-carried phi provenance (back-edge classification) + edge dominance on SSA",
   ref="DESIGN.md §3 C05")
 CLAIMS["C17"] = dict(
-  text="Termination variant and resolution discipline: the resolver's only cycle passes a loop head that returns a depth error when the hop budget is below zero, and every back edge decreases the budget by a positive constant (so at most max+1 iterations for every symlink graph); Open/Stat/ReadDir resolve the node looked up for the requested name through that resolver with the view's configured depth and answer from the resolved node; the success exit returns the current non-symlink node, a failed lookup returns its error, the cycle error needs pointer equality with the slow pointer; symlink nodes are created only when TargetOutsideRoot(virtual path, raw link name) is false; shared nodes are immutable, so resolution in one view cannot change another's. Also: D2 additionally: FS.Stat answers with resolvedNode.Stat(); D3 additionally: TargetOutsideRoot examines the joined, cleaned path on every return. Level 'other': the hop-count/cycle classification as values is not decided.",
+  text="Termination variant and resolution discipline: the resolver's only cycle passes a loop head that returns a depth error when the hop budget is below zero, and every back edge decreases the budget by a positive constant (so at most max+1 iterations for every symlink graph); Open/Stat/ReadDir resolve the node looked up for the requested name through that resolver with the view's configured depth and answer from the resolved node; the success exit returns the current non-symlink node, a failed lookup returns its error, the cycle error needs pointer equality with the slow pointer; symlink nodes are created only when TargetOutsideRoot(virtual path, raw link name) is false; shared nodes are immutable, so resolution in one view cannot change another's. Also: D2 additionally: FS.Stat answers with resolvedNode.Stat(); D3 additionally: TargetOutsideRoot examines the joined, cleaned path on every return. Round 3: D5 relative link targets go into path.Join unchanged; no cutset trimming in the image packages. Level 'other': the hop-count/cycle classification as values is not decided.",
   note="Trusted: go/ssa; symlink.TargetOutsideRoot's own lexical semantics.",
   technique="loop variant (phi step) analysis + edge dominance + who-may-write rule for node fields",
   ref="DESIGN.md §3 C17")
@@ -103,19 +103,19 @@ CLAIMS["C03"] = dict(
   ref="DESIGN.md §3 C03")
 
 CLAIMS["C18"] = dict(
-  text="Shape rules for vulns.IsAffected: positive verdicts are reachable only under equal ecosystem and equal name (range verdicts additionally only for ECOSYSTEM, or SEMVER for npm, ranges), an unknown ecosystem answers false up front; inside the loops over entries and ranges only the constant true is returned (a negative range never ends the evaluation); the events are sorted on a private copy and searched on that same slice for the package's version, both comparators put the sentinel \"0\" first and use the ecosystem comparison; an exact hit is affected iff the event is introduced/last_affected, a position between events iff a previous event exists and is introduced; index discipline proved with the BinarySearchFunc contract. Also: D6 the explicit-versions test exists, leads straight to a positive verdict and is evaluated under exactly the audited guards. Level 'other': necessary conditions of the OSV evaluation; agreement with the specification's linear scan on all event lists is not decided.",
+  text="Shape rules for vulns.IsAffected: positive verdicts are reachable only under equal ecosystem and equal name (range verdicts additionally only for ECOSYSTEM, or SEMVER for npm, ranges), an unknown ecosystem answers false up front; inside the loops over entries and ranges only the constant true is returned (a negative range never ends the evaluation); the events are sorted on a private copy and searched on that same slice for the package's version, both comparators put the sentinel \"0\" first and use the ecosystem comparison; an exact hit is affected iff the event is introduced/last_affected, a position between events iff a previous event exists and is introduced; index discipline proved with the BinarySearchFunc contract. Also: D6 the explicit-versions test exists, leads straight to a positive verdict and is evaluated under exactly the audited guards. Round 3: D7 a range of a matching type is always sorted and searched (frozen skip table of the range loop). Level 'other': necessary conditions of the OSV evaluation; agreement with the specification's linear scan on all event lists is not decided.",
   note="Trusted: go/ssa; slices.SortFunc/BinarySearchFunc/Clone contracts; deps.dev semver Compare.",
   technique="edge dominance over normalised comparisons + comparator-closure inspection + bounds prover",
   ref="DESIGN.md §3 C18")
 
 CLAIMS["C16"] = dict(
-  text="Lockset and spawn-site rules: the fields of RequestCache and CombinedNativeClient named in the frozen guarded-by table are accessed only with their mutex held on every path (must-hold dataflow over Lock/Unlock/defer), the scan-progress fields read by RunFS's status goroutine are written and (in that goroutine) read only under statusMu; RequestCache.Get tests for a cached and for a pending value and registers the new call in one critical section, calls the fetch function unlocked, signals the waiters, re-examines/removes the pending entry on every path after the fetch and caches only successes; goroutines spawned in a loop never get append(<shared slice>, ...); each spawn is paired with one counter increment, the worker sends exactly once, and the patch list returned is SortFunc then CompactFunc with the same comparator. Also: D1 additionally: a map/slice reference loaded from a guarded field is used only while the mutex is still held. Level 'other': necessary conditions for race-freedom and schedule-independence; linearizability and equality across schedules are not decided.",
+  text="Lockset and spawn-site rules: the fields of RequestCache and CombinedNativeClient named in the frozen guarded-by table are accessed only with their mutex held on every path (must-hold dataflow over Lock/Unlock/defer), the scan-progress fields read by RunFS's status goroutine are written and (in that goroutine) read only under statusMu; RequestCache.Get tests for a cached and for a pending value and registers the new call in one critical section, calls the fetch function unlocked, signals the waiters, re-examines/removes the pending entry on every path after the fetch and caches only successes; goroutines spawned in a loop never get append(<shared slice>, ...); each spawn is paired with one counter increment, the worker sends exactly once, and the patch list returned is SortFunc then CompactFunc with the same comparator. Also: D1 additionally: a map/slice reference loaded from a guarded field is used only while the mutex is still held. Round 3: the collector's decisions that drop a received result are the audited ones (shared with C12), so follow-up attempts do not depend on arrival order. Level 'other': necessary conditions for race-freedom and schedule-independence; linearizability and equality across schedules are not decided.",
   note="Trusted: go/ssa, the guarded-by table in c16.go (confirmed by reading), sync.Mutex semantics; aliasing of mutex receivers is by access path.",
   technique="must-hold lockset dataflow, atomic-section path search, spawn-site argument freshness, pairing rules",
   ref="DESIGN.md §3 C16")
 
 CLAIMS["C13"] = dict(
-  text="Writer discipline: dependency names reach gjson/sjson paths only through gjson.Escape; index/slice expressions of the npm and maven manifest packages are proved in bounds or audited; in the package.json writer the next update (or success) is reachable only after an sjson.Set for the current update - decided path-sensitively over the per-update matched flag - and the buffer is modified only inside the update loop and is what gets written to the requested path; in the pom.xml writer origin strings are split, re-joined and suffix-trimmed with the '@' separator the origin builder uses, so patches are filed under origins the writer looks up. Also: D6 pom.xml: a section is marked as handled under the origin whose patches are applied to it; D7 package.json: an entry is rewritten only on the 'current value == original version' edge; D8 no Trim-family call with a computed cutset in the manifest writers. Level 'other': necessary conditions; byte/token preservation and re-read equality are not decided.",
+  text="Writer discipline: dependency names reach gjson/sjson paths only through gjson.Escape; index/slice expressions of the npm and maven manifest packages are proved in bounds or audited; in the package.json writer the next update (or success) is reachable only after an sjson.Set for the current update - decided path-sensitively over the per-update matched flag - and the buffer is modified only inside the update loop and is what gets written to the requested path; in the pom.xml writer origin strings are split, re-joined and suffix-trimmed with the '@' separator the origin builder uses, so patches are filed under origins the writer looks up. Also: D6 pom.xml: a section is marked as handled under the origin whose patches are applied to it; D7 package.json: an entry is rewritten only on the 'current value == original version' edge; D8 no Trim-family call with a computed cutset in the manifest writers. Round 3: D9 candidate parents are identified with mavenutil.ProjectKey at every site and dependencies are matched on Key(); D10 a parent's requirements are filed under the path of the file that was opened. Level 'other': necessary conditions; byte/token preservation and re-read equality are not decided.",
   note="Trusted: go/ssa; gjson.Escape covers gjson/sjson path syntax; 7 audited index/slice sites with reasons in evidence.",
   technique="provenance of path arguments, path-sensitive must-pass search, bounds prover, separator agreement between origin builder and readers",
   ref="DESIGN.md §3 C13")
